@@ -375,6 +375,41 @@ def gen_plan(seed, tier, idx):
                     ops.append({"op": "ckd", "h": out, "i": i, "out": out + "c"})
                     g._add(out + "c", r, path + [i], private, "c%d" % c)
                 ops.append(later[2])
+    # REFUSED LOOKUP IN THE MIDDLE OF A HISTORY: by_path(P1) succeeds, by_path(P2) is refused PART-WAY (some levels
+    # that differ from P1 were already derived when a later level raises: a hardened step on a watch-only wallet, an
+    # index that does not fit 32 bits), then by_path(P3) shares P2's first levels but not P1's. Bookkeeping that was
+    # half-updated by the failed call must not leak into the third answer.
+    if not scan_n and rng2.random() < 0.45:
+        c = rng2.randrange(len(clients))
+        ops = clients[c]
+        r = rng2.choice(roots)
+        private = libapi.is_private(libapi.ROOTS[r])
+        if private:
+            spec_r = libapi.ROOTS[r]
+            coin = (1 if (spec_r.get("testnet") or spec_r.get("key", "x")[0] in "tuv") else 0) + HARD
+            pa, pb = rng2.sample([44, 49, 84], 2)
+            tail = [rng2.choice([0, 1]) + HARD, rng2.choice([0, 1])]
+            i1, i3 = rng2.choice(NORMAL), rng2.choice(NORMAL)
+            p1 = [pa + HARD, coin] + tail + [i1]
+            keep = rng2.randint(1, 4)             # number of leading levels of P2 that are derived before the refusal
+            p2 = ([pb + HARD, coin] + tail)[:keep] + [rng2.choice([2 ** 32, 2 ** 32 + 5, 2 ** 40])]
+            p3 = [pb + HARD, coin] + tail + [rng2.choice([i1, i3])]
+        else:
+            a, b = rng2.sample(NORMAL, 2)
+            p1 = [a, rng2.choice(NORMAL)]
+            p2 = [b] + [rng2.choice(NORMAL) for _ in range(rng2.randint(0, 2))] + [rng2.choice(HARDENED)]
+            p3 = [b] + p2[1:-1] + [rng2.choice(NORMAL)]
+        mk_ = "'"
+        rootc = "m" if private else rng2.choice(["m", "M"])
+        trip = []
+        for k_, pth in enumerate((p1, p2, p3)):
+            nm = "c%d.t%d" % (c, k_)
+            trip.append({"op": "by_path", "root": r, "s": fmt_path(pth, mk_, rootc), "path": pth, "out": nm})
+            if k_ != 1:
+                g._add(nm, r, pth, private, "c%d" % c)
+        at = rng2.randint(0, len(ops))
+        follow = {"op": rng2.choice(["node", "ext_keys", "str"]), "h": "c%d.t2" % c}
+        ops[at:at] = trip + [follow]
     for c, ops in enumerate(clients):
         for j, op in enumerate(ops):
             op["id"] = "c%d#%d" % (c, j)
